@@ -8,6 +8,8 @@ MODULE = "Poupool.Properties.C05"
 
 def run(chk):
     ac.run_actor_property(chk, MODULE, THEOREMS, monitor_pids=["C05"], extra=globals().get("extra"))
+    from checks import altcfg as _alt
+    _alt.binding(chk, ['tank'])
     ac.timing_theorems(chk, TIMING)
 
 
@@ -90,7 +92,7 @@ def valve_monitor(chk):
                 else:
                     break
                 lo, hy = lv["low"], cfg["hyst"]
-                lvl = rng.choice([lo - hy - 3, lo - hy - 1, lo + hy, lo + hy + 2, 50, lv["high"] + hy + 1, lo, lo - hy])
+                lvl = rng.choice([lo - hy - 3, lo - hy - 1, lo - hy - 0.3, lo - hy - 0.45, lo + hy, lo + hy + 2, 50, lv["high"] + hy + 1, lo, lo - hy, lo + hy - 0.4])
                 r.do(["tank", lvl]); trace.append(["tank", lvl])
                 r.do(["run", 45]); trace.append(["run", 45])
                 f2 = r.sys.state("Filtration") if r.world.alive("Filtration") else "DEAD"
